@@ -223,6 +223,11 @@ def check(ctx, case):
                 if np.any(f != 0):
                     ctx.violation("degenerate-edge-nonzero", f"edge {k} of animal {a} has a missing endpoint or zero length but contributes {np.abs(f).max():.3g}", small)
                 continue
+            if vis.any() and not out_all and not in_img.any():
+                # every visible node lies in the half-open rim between the last pixel centre (W-1 / H-1) and the image size (W / H) or beyond:
+                # neither "inside" nor "wholly outside" as this check defines them - nothing is asserted beyond finiteness
+                ctx.count("rim_animals_edges")
+                continue
             if not vis.any() or out_all:
                 ctx.count("outside_animals_edges")
                 if np.any(f != 0):
